@@ -7,6 +7,12 @@
        (the hypothesis of the theorems).
    (K-outer) printed value / error class of the real run vs the SPEC interpreter [eval_program] on the AST this
        file derives from the program text by its own desugaring (R7RS 7.3) and scope resolution.
+   (K-inner, rest flag) the real sexp_rest_unused_p of every lambda (harness F line) vs the model's rest_unused.
+   Round 2: programs run in a fresh top-level environment each (PROGF); families for top-level define / re-define /
+   set! sequences, rest parameters and captured variables in every syntactic position class, forward references to later
+   internal defines / letrec bindings, closure chains, derived-form scoping cases, variadic arithmetic / comparison chains,
+   apply / values / quasiquote (SPEC-side emulations); inner disagreement => targeted failing-input search over the
+   families in full; every violation is shrunk; the partially built tree is used when the tree's own build breaks.
    Shared with props/C05.py: s-expression tools, the harness runner, the surface language."""
 import os, re, subprocess, json
 from vlib import build as B
@@ -112,6 +118,8 @@ def wire_ast(a, names):
         op = a[1].strip('"')
         if op not in PRIMS:
             raise Unsupported("primitive " + op)
+        if len(a) - 2 != PRIMS[op]:
+            raise Unsupported("n-ary application of " + op)      # folded arithmetic / comparison chains: outer comparison only
         return ["op", op] + [wire_ast(x, names) for x in a[2:]]
     raise Unsupported("node " + str(k))
 
@@ -346,6 +354,26 @@ def desugar(x):
         for a in reversed(x[2:-1]):
             l = ["cons", desugar(a), l]
         return ["%apply", desugar(x[1]), l]
+    if h in ("+", "*", "-") and len(x) != 3:
+        # SPEC side of variadic arithmetic (R7RS 6.2.6): left fold; (+) = 0, (*) = 1, (- a) = 0 - a
+        args = [desugar(a) for a in x[1:]]
+        if not args:
+            if h == "-":
+                raise Unsupported("(-) without arguments")
+            return 0 if h == "+" else 1
+        if len(args) == 1:
+            return ["-", 0, args[0]] if h == "-" else [h, 0 if h == "+" else 1, args[0]]
+        acc = [h, args[0], args[1]]
+        for a in args[2:]:
+            acc = [h, acc, a]
+        return acc
+    if h in ("<", "<=", ">", ">=", "=") and len(x) > 3:
+        # SPEC side of comparison chains: every adjacent pair (operands are variables / literals in the generated programs)
+        args = [desugar(a) for a in x[1:]]
+        out = [h, args[-2], args[-1]]
+        for i in range(len(args) - 3, -1, -1):
+            out = ["if", [h, args[i], args[i + 1]], out, False]
+        return out
     if h == "quasiquote" and len(x) == 2:
         return qq(x[1])
     if h == "values":
@@ -1271,8 +1299,31 @@ MISC_CASES = [
     ("quasiquote-dotted-tail", [[["lambda", ["x", "l"], lst(["quasiquote", [1, ".", ["unquote", "x"]]], ["quasiquote", [1, ["unquote-splicing", "l"], ".", ["unquote", "x"]]])], 7, lst(2, 3)]]),
     ("quasiquote-constant-and-atoms", [lst(["quasiquote", ["a", "b", [1, 2]]], ["quasiquote", 5], ["quasiquote", "s"], ["quasiquote", ["unquote", ["cons", 1, 2]]])]),
     ("quasiquote-evaluation-order-free", [["define", ["f", ".", "r"], "r"], [["lambda", ["y"], ["quasiquote", [["unquote", ["f", "y", 1]], ["unquote-splicing", ["f", 2, "y"]]]]], 9]]),
+    ("let-init-evaluated-once", [["define", "n", 0], [["lambda", ["x"], ["cons", "x", ["cons", "x", "n"]]], ["begin", ["set!", "n", ["+", "n", 1]], "n"]]]),
+    ("rest-and-locals-boxed", [["define", ["f", "a", ".", "r"], ["define", "k", ["cons", "a", "r"]], ["set!", "r", "k"], ["set!", "a", ["cons", 0, "r"]],
+                                lst("a", "k", "r")], lst(["f", 1, 2, 3], ["f", 4], 99)]),
     ("begin-empty-tail", [[["lambda", ["x"], ["begin", ["set!", "x", 1]], "x"], 0]]),
 ]
+
+
+def nary_family():
+    """variadic arithmetic (0, 1, 3, 4, 5 operands) and comparison chains (3, 4, 5 operands) on variables (no constant folding):
+    increasing values, every adjacent pair swapped, all equal, decreasing"""
+    vecs = [[1, 2, 3, 4, 5], [2, 1, 3, 4, 5], [1, 3, 2, 4, 5], [1, 2, 4, 3, 5], [1, 2, 3, 5, 4], [2, 2, 2, 2, 2], [5, 4, 3, 2, 1],
+            [1, 2, 2, 3, 3], [3, 3, 2, 2, 1]]
+    ps = ["a", "b", "c", "d", "e"]
+    out = []
+    for n, vec in enumerate(vecs):
+        res = []
+        for op in ("<", "<=", ">", ">=", "="):
+            for k in (3, 4, 5):
+                res.append([op] + ps[:k])
+        for op in ("+", "-", "*"):
+            for k in (0, 1, 3, 4, 5):
+                if not (op == "-" and k == 0):
+                    res.append([op] + ps[:k])
+        out.append(("nary/v%d" % n, [[["lambda", ps, lst(*res)]] + vec]))
+    return out
 
 
 FIXED_CASES = [
@@ -1700,6 +1751,7 @@ def run(ctx):
     rng = ctx.rng
     q = not ctx.thorough
     progs = load_corpus() + [(k, f) for k, f in FIXED_CASES] + [("misc-" + k, f) for k, f in MISC_CASES] + [(k, f) for k, f in REDEFINE_READS_OLD]
+    progs += nary_family()
     fam = capture_family()
     if q:
         fam = [fam[i] for i in sorted(rng.sample(range(len(fam)), min(240, len(fam))))]
